@@ -518,7 +518,7 @@ struct optional<T&> {
     constexpr auto operator=(optional<U> const& rhs) -> optional&
     {
         static_assert(is_constructible_v<add_lvalue_reference_t<T>, U>, "Must be able to bind U to T&");
-        _ptr = rhs._ptr;
+        _ptr = rhs.has_value() ? etl::addressof(*rhs) : nullptr;
         return *this;
     }
 
